@@ -64,8 +64,9 @@ pub fn run() {
     println!("B4 len={} cap={} monotone={} failed_at={}", w.big.len(), w.big.capacity(), monotone as u8, failed_at);
     // B5: at the limit create panics without corrupting anything
     let (l0, c0) = (w.big.len(), w.big.capacity());
+    let first5 = w.big.entities().first().copied();
     let r = guard(|| w.big.create((Plain(9),)));
-    println!("B5 {} len_same={} cap_same={}", match r { Ok(_) => "ok".to_string(), Err(c) => format!("panic {}", c) }, (w.big.len() == l0) as u8, (w.big.capacity() == c0) as u8);
+    println!("B5 {} len_same={} cap_same={}", match r { Ok(e) => format!("ok dup_of_first={}", (Some(e) == first5) as u8), Err(c) => format!("panic {}", c) }, (w.big.len() == l0) as u8, (w.big.capacity() == c0) as u8);
     // B8 (C08): whatever the extra create does, it must not hand out a handle that is already alive
     let first = w.big.entities().first().copied();
     let extra = guard(|| w.big.create((Plain(11),)));
